@@ -144,7 +144,7 @@ def ungate_chains(f):
 
 
 def build():
-    u = Unit('pchain', ['C06'])
+    u = Unit('pchain', ['C06', 'C11'])
     u.rlimit = 120
     u.assume('ring elements modelled as integers (integral domain; a gated constraint g*e = 0 with g != 0 forces e = 0 in every field as well); AB::Var / AB::Expr erased to R, `.into()`/`.clone()` identities (R11)')
     u.assume('the filter chain builder.when_transition().when(g).assert_zero(e) asserts transition_selector * g * e = 0 (p3-air FilteredAirBuilder); the transition selector is non-zero exactly on transition rows')
